@@ -67,6 +67,14 @@ TINY["dir"] = ["cut:before"]
 TINY["newNonce"] = ["cut:before"]
 
 
+# status codes without a registered reason phrase, a later chain block damaged after a sound leaf (added after seeding round 7)
+for _k in FULL:
+    if _k not in ("hook",):
+        FULL[_k] = FULL[_k] + ["err:rateLimited:529", "errbody:empty:520"]
+FULL["cert"] = FULL["cert"] + ["cert:trunc2nd", "cert:garbage2nd"]
+REDUCED["cert"] = REDUCED["cert"] + ["cert:trunc2nd"]
+
+
 def answer_class(a):
     if a == "ok":
         return "ok"
